@@ -112,7 +112,7 @@ const MaxByteLen = 64
 // small values.
 var (
 	ByteFillsQuick    = []string{"00", "01", "L", "7f", "80", "ff", "mix"}
-	ByteFillsThorough = []string{"00", "01", "L", "7f", "80", "ff", "mix", "inc80", "min64", "ff-00", "00-ff", "fe"}
+	ByteFillsThorough = []string{"00", "01", "L", "7f", "80", "ff", "mix", "inc80", "min64", "ff-00"}
 )
 
 func knownFill(fill string) bool {
@@ -141,10 +141,6 @@ func FillPattern(fill string, n int, letter byte) []byte {
 			}
 		case "ff-00": // first half ff, second half 00
 			if i < (n+1)/2 {
-				b[i] = 0xff
-			}
-		case "00-ff": // first half 00, second half ff
-			if i >= n/2 {
 				b[i] = 0xff
 			}
 		default: // two hex digits: one byte value repeated
@@ -873,6 +869,11 @@ func forEachSeq(alphabet []string, minLen, maxLen int, f func(ops []string) bool
 // A history writer (this binary re-executed under strace) performs a history through performHistory, bracketing the
 // initial Open (k=0) and every op (k=i+1) with BEGIN/ACK markers. Every prefix / torn-write / unsynced image of the
 // syscall log is materialized and recovered in a fresh subprocess with the real Queue.Open.
+//
+// Payload-byte family (byteFamily, deriveByteLog): histories whose last op is an appendB:<len>:<fill> - payloads of
+// several lengths filled with 0x00 / 0x01 / a letter / 0x7f / 0x80 / 0xff / mixed patterns - so that the torn images
+// of that append put every window of (old footer | length word | payload | new footer) where segment.open reads the
+// head position, including values with the high bit set and values that look like a valid position.
 
 // CrashHistory is one recorded history of the crash family.
 type CrashHistory struct {
@@ -905,7 +906,6 @@ func crashHistories(tier string) []CrashHistory {
 		// the head segment while the tail is another segment
 		{Name: "advance-append", Cfg: cfg, Ops: []string{OpAppend1, OpAppend1, OpAdvance, OpAppend9, OpAppend9, OpAdvance, OpAppend9, OpAppend1}},
 	}
-	hs = append(hs, byteHistories(tier)...)
 	if tier != "thorough" {
 		return hs
 	}
@@ -931,48 +931,101 @@ type bytePrefix struct {
 	Ops  []string
 }
 
-// byteHistories is the payload-byte family: (acknowledged prefix) x (payload length) x (fill pattern), each ONE recorded
-// history "prefix, appendB:<len>:<fill>" of which only the cuts inside or after the appendB are evaluated. The write of
+func byteHistory(p bytePrefix, n int, fill string) CrashHistory {
+	ops := append(append([]string(nil), p.Ops...), AppendB(n, fill))
+	return CrashHistory{Name: fmt.Sprintf("bytes:%s:%d:%s", p.Name, n, fill), Cfg: p.Cfg, Ops: ops, LastOnly: true}
+}
+
+// byteFamily is the payload-byte family: (acknowledged prefix) x (payload length) x (fill pattern), each a history
+// "prefix, appendB:<len>:<fill>" of which only the cuts inside or after the appendB are evaluated. The write of
 // segment.append (length word | payload | footer, overwriting the old footer) is torn at EVERY byte length, so the last
 // 8 bytes of the tail segment file run through every window of (old footer | length word | payload | new footer).
-func byteHistories(tier string) []CrashHistory {
+func byteFamily(tier string) (prefixes []bytePrefix, lens []int, fills []string) {
 	rolled := DefaultCfg
 	rolled.ByteFamily = true
-	prefixes := []bytePrefix{
-		{"fresh", ByteCfg, nil}, // the append overwrites the initial footer of an empty segment
+	prefixes = []bytePrefix{
 		{"after-9", ByteCfg, []string{OpAppend9}},
-		{"after-1", ByteCfg, []string{OpAppend1}},
 		{"after-1,9", ByteCfg, []string{OpAppend1, OpAppend9}},
-		{"after-9,9", ByteCfg, []string{OpAppend9, OpAppend9}},
-		{"after-9,advance", ByteCfg, []string{OpAppend9, OpAdvance}},              // footer position 17, nothing left to deliver
 		{"after-9,9,advance", ByteCfg, []string{OpAppend9, OpAppend9, OpAdvance}}, // footer position 17, one entry left
+		{"after-9,advance", ByteCfg, []string{OpAppend9, OpAdvance}},              // footer position 17, nothing left to deliver
+		{"fresh", ByteCfg, nil},                                                   // the append overwrites the initial footer of an empty segment
 		{"rolled-after-9,9", rolled, []string{OpAppend9, OpAppend9}},              // max segment size 40: the append creates segment 2, the acknowledged entries are in segment 1
 	}
-	lens := []int{1, 8, 9, 16, 17, 40}
-	fills := ByteFillsQuick
+	lens = []int{1, 8, 9, 16, 17, 40}
+	fills = ByteFillsQuick
 	if tier == "thorough" {
 		prefixes = append(prefixes,
+			bytePrefix{"after-1", ByteCfg, []string{OpAppend1}},
+			bytePrefix{"after-9,9", ByteCfg, []string{OpAppend9, OpAppend9}},
 			bytePrefix{"after-1,1", ByteCfg, []string{OpAppend1, OpAppend1}},
 			bytePrefix{"after-9,1", ByteCfg, []string{OpAppend9, OpAppend1}},
 			bytePrefix{"after-1,advance", ByteCfg, []string{OpAppend1, OpAdvance}},
 			bytePrefix{"after-1,9,advance", ByteCfg, []string{OpAppend1, OpAppend9, OpAdvance}},
 			bytePrefix{"after-9,reopen", ByteCfg, []string{OpAppend9, OpReopen}},
 			bytePrefix{"after-9,9,scanAll", ByteCfg, []string{OpAppend9, OpAppend9, OpScanAll}},
+			bytePrefix{"after-1,9,9", ByteCfg, []string{OpAppend1, OpAppend9, OpAppend9}},
+			bytePrefix{"after-9,advance,9", ByteCfg, []string{OpAppend9, OpAdvance, OpAppend9}},
 		)
 		// 26 and 34 are the record boundaries behind the prefixes (1 B, 9 B) and (9 B, 9 B)
-		lens = []int{1, 2, 7, 8, 9, 10, 15, 16, 17, 18, 24, 25, 26, 32, 33, 34, 40, 64}
+		lens = []int{1, 2, 8, 9, 16, 17, 24, 26, 34, 40}
 		fills = ByteFillsThorough
 	}
-	var hs []CrashHistory
-	for _, n := range lens {
-		for _, f := range fills {
-			for _, p := range prefixes {
-				ops := append(append([]string(nil), p.Ops...), AppendB(n, f))
-				hs = append(hs, CrashHistory{Name: fmt.Sprintf("bytes:%s:%d:%s", p.Name, n, f), Cfg: p.Cfg, Ops: ops, LastOnly: true})
+	return
+}
+
+// deriveByteLog returns the recording of the history "prefix, appendB:<n>:<fill>" derived from the REAL recording l of
+// "prefix, appendB:<fromN>:<fromFill>": the ONE write of the appendB in flight (length word | payload | footer) gets
+// the length word and payload of the other entry and keeps the recorded offset and footer bytes, and the op name in
+// the BEGIN marker is replaced; every other event (syscall sequence, offsets, segment creation of the rolled prefix,
+// fsyncs, markers) is what was recorded. Neither Queue.Append nor segment.append looks at the payload, and whether the
+// segment rolls depends on the size of the tail segment only, so two real recordings differ in nothing else; this is
+// cross-checked against further real recordings (quick: one (length, fill) per prefix; thorough: every second length of
+// every prefix, the fill rotating), and every violation is confirmed on a real recording of its own history (Replay records that history itself and
+// compares the digest of the event prefix, payload bytes included).
+func deriveByteLog(l *crashfs.Log, p bytePrefix, fromN int, fromFill string, n int, fill string) (*crashfs.Log, error) {
+	i := len(p.Ops) // op index of the appendB
+	oldP, newP := EntryFor(p.Cfg, AppendB(fromN, fromFill), i), EntryFor(p.Cfg, AppendB(n, fill), i)
+	oldM, _ := json.Marshal(markerOp{I: i, Op: AppendB(fromN, fromFill)})
+	newM, _ := json.Marshal(markerOp{I: i, Op: AppendB(n, fill)})
+	d := *l
+	d.Events = append([]crashfs.Event(nil), l.Events...)
+	d.Final = nil
+	begin, writes := -1, 0
+	for k := range d.Events {
+		e := &d.Events[k]
+		switch {
+		case e.Marker != nil && e.Marker.Kind == "BEGIN" && e.Marker.K == i+1:
+			if e.Marker.Payload != string(oldM) {
+				return nil, fmt.Errorf("BEGIN marker of the append in flight is %q, expected %q", e.Marker.Payload, oldM)
 			}
+			m := *e.Marker
+			m.Payload = string(newM)
+			e.Marker = &m
+			begin = k
+		case begin >= 0 && e.Op == crashfs.OpWrite && len(e.Data) == 8:
+			// initial footer of a segment the append creates (rolled prefix)
+		case begin >= 0 && e.Op == crashfs.OpWrite:
+			// the only other data written after the BEGIN of the last op: length word | payload | footer
+			var lw [8]byte
+			lw[7] = byte(fromN)
+			if len(e.Data) != fromN+16 || !bytes.Equal(e.Data[:8], lw[:]) || !bytes.Equal(e.Data[8:8+fromN], oldP) {
+				return nil, fmt.Errorf("event %d after the BEGIN of the append in flight writes %d bytes that are not length word | payload | footer", k, len(e.Data))
+			}
+			lw[7] = byte(n)
+			nd := append(append(append([]byte(nil), lw[:]...), newP...), e.Data[8+fromN:]...)
+			e.Data = nd
+			writes++
 		}
 	}
-	return hs
+	if begin < 0 || writes != 1 {
+		return nil, fmt.Errorf("expected exactly one payload write after the BEGIN of the append in flight, found begin=%d writes=%d", begin, writes)
+	}
+	return &d, nil
+}
+
+// fullDigest pins a whole log (every event with its payload bytes).
+func fullDigest(l *crashfs.Log) string {
+	return prefixDigest(l, crashfs.Descriptor{Kind: crashfs.KindP, Cut: len(l.Events), TornLen: -1})
 }
 
 // tailWindowClass classifies the last 8 bytes of the highest-numbered segment file of an image the way segment.open
@@ -1649,6 +1702,13 @@ func crashSig(clause, stage string, o *CrashObs, im *crashfs.Image, cx crashCtx)
 		}
 		return vlib.JoinSig("crash", clause, stage, "cut="+im.Desc.Kind, "err="+openErrClass(e), rem)
 	}
+	if cx.Infl == "append" && im.Desc.TornLen > 8 && strings.HasPrefix(tailWindowClass(im), "in-range") {
+		// the append's write is torn BEHIND its length word and the last 8 bytes on disk (payload bytes, or payload bytes
+		// and the first bytes of the new footer) decode to a position inside the segment: segment.open takes them for
+		// the footer. A root cause of its own, one class per clause. (Torn exactly after the length word, TornLen == 8,
+		// is the class without this feature.)
+		return vlib.JoinSig("crash", clause, stage, "cut="+im.Desc.Kind, "inflight="+cx.Infl, "torn-tail=payload-reads-as-head-position")
+	}
 	return vlib.JoinSig("crash", clause, stage, "cut="+im.Desc.Kind, "inflight="+cx.Infl)
 }
 
@@ -1671,15 +1731,24 @@ type ctxImg struct {
 
 // crashPrep is one recorded history with its images grouped by content.
 type crashPrep struct {
-	h     CrashHistory
-	log   *crashfs.Log
-	uniq  []*crashfs.Image // first image of every distinct content
-	ctxs  [][]ctxImg       // per content: the (image, context) pairs to judge
-	first int              // index of this history's first item in the worker's item list
+	h    CrashHistory
+	log  *crashfs.Log
+	uniq []*crashfs.Image // first image of every distinct content
+	ctxs [][]ctxImg       // per content: the (image, context) pairs to judge
+	item [][]int          // per content, per read-out mode: index in the worker's item list (contents shared by the histories of a worker are recovered once)
 }
 
 // prepareCrashHistory records one history and enumerates its images.
 func prepareCrashHistory(c *vlib.Ctx, scratch string, h CrashHistory) (pr *crashPrep, stop bool) {
+	l, stop := recordForRun(c, scratch, h)
+	if l == nil {
+		return nil, stop
+	}
+	return prepareCrashLog(c, h, l), false
+}
+
+// recordForRun records one history for the exploration (one strace session).
+func recordForRun(c *vlib.Ctx, scratch string, h CrashHistory) (l *crashfs.Log, stop bool) {
 	l, err := recordCrashHistory(scratch, h)
 	if err != nil {
 		if errors.Is(err, crashfs.ErrNoTrace) {
@@ -1692,12 +1761,18 @@ func prepareCrashHistory(c *vlib.Ctx, scratch string, h CrashHistory) (pr *crash
 	crashLogMu.Lock()
 	crashLogCache[crashHistoryKey(h)] = l
 	crashLogMu.Unlock()
+	c.Extra("crash_recordings", 1)
+	c.Extra("crash_syscalls_in_logs", int64(l.Syscalls))
+	return l, false
+}
+
+// prepareCrashLog enumerates the images of one history from its log (nil after a harness error).
+func prepareCrashLog(c *vlib.Ctx, h CrashHistory, l *crashfs.Log) (pr *crashPrep) {
 	c.Extra("crash_histories", 1)
 	if h.Cfg.ByteFamily {
 		c.Extra("crash_bytefamily_histories", 1)
 	}
 	c.Extra("crash_events", int64(len(l.Events)))
-	c.Extra("crash_syscalls_in_logs", int64(l.Syscalls))
 	pr = &crashPrep{h: h, log: l}
 	byHash := map[string]int{} // content hash -> index in uniq
 	var st crashfs.Stats
@@ -1705,12 +1780,15 @@ func prepareCrashHistory(c *vlib.Ctx, scratch string, h CrashHistory) (pr *crash
 		cx, err := contextOf(h.Cfg, im)
 		if err != nil {
 			c.HarnessError("crash family: " + err.Error())
-			return nil, false
+			return nil
 		}
 		if h.LastOnly && len(h.Ops) > 0 {
 			// keep the cuts inside or after the last op only
 			if !(cx.NAcked == len(h.Ops) || (cx.NAcked == len(h.Ops)-1 && cx.Infl != "none")) {
 				continue
+			}
+			if h.Cfg.ByteFamily && cx.Infl == "open" {
+				continue // (payload-byte family on a fresh queue: the cuts inside the initial Open are the same for all payloads)
 			}
 		}
 		gi, ok := byHash[im.Hash]
@@ -1727,7 +1805,7 @@ func prepareCrashHistory(c *vlib.Ctx, scratch string, h CrashHistory) (pr *crash
 	}
 	c.Extra("crash_writes_with_subsampled_torn_lengths", int64(st.LongTorn))
 	c.Extra("crash_image_contents", int64(len(pr.uniq)))
-	return pr, false
+	return pr
 }
 
 // judgeCrashHistory judges every (image, context, read-out mode) of one prepared history; obs/notes are indexed like
@@ -1738,7 +1816,7 @@ func judgeCrashHistory(c *vlib.Ctx, pr *crashPrep, obs []*CrashObs, notes map[in
 	sampled := false
 	for gi := range pr.uniq {
 		for mi, mode := range crashModes {
-			ii := pr.first + gi*len(crashModes) + mi
+			ii := pr.item[gi][mi]
 			o := obs[ii]
 			if o == nil {
 				if n, ok := notes[ii]; ok {
@@ -1746,7 +1824,6 @@ func judgeCrashHistory(c *vlib.Ctx, pr *crashPrep, obs []*CrashObs, notes map[in
 				}
 				continue
 			}
-			c.Extra("crash_recoveries", 1)
 			if o.Stage >= 1 {
 				states[shortList(o.Got1)] = struct{}{}
 			}
@@ -1773,7 +1850,10 @@ func judgeCrashHistory(c *vlib.Ctx, pr *crashPrep, obs []*CrashObs, notes map[in
 				if cx.Infl != "none" && cx.Infl != "open" {
 					nops++
 				}
-				if o.Stage >= 1 && len(o.Got1) > 1 {
+				// payload-byte family: also every image whose append in flight is torn behind its length word (payload bytes
+				// are part of what segment.open reads as the footer), whatever the recovery made of it
+				byteTorn := h.Cfg.ByteFamily && cx.Infl == "append" && im.Desc.TornLen > 8
+				if (o.Stage >= 1 && len(o.Got1) > 1) || byteTorn {
 					c.Nontrivial("crash|" + strings.Join(h.Ops[:nops], ",") + "|" + im.Desc.String() + "|" + mode)
 				}
 				res := "ok"
@@ -1786,6 +1866,10 @@ func judgeCrashHistory(c *vlib.Ctx, pr *crashPrep, obs []*CrashObs, notes map[in
 					c.Violation(crashSig(clause, stage, o, im, cx),
 						fmt.Sprintf("crash history %s %v, image %s, read-out %s; acknowledged %s head=%d, in flight: %s — %s", h.Name, h.Ops, cutDesc, mode, shortList(cx.Appended), cx.Head, cx.Infl, detail),
 						Case{Crash: &CrashCase{History: h, Desc: im.Desc, Digest: prefixDigest(pr.log, im.Desc), Mode: mode, Cut: cutDesc}})
+				} else if !sampled && byteTorn && im.Desc.TornLen >= 24 && len(cx.Appended) > 0 && c.WantSample() && strings.HasPrefix(tailWindowClass(im), "high-bit") {
+					sampled = true
+					c.Sample(map[string]any{"family": "crash/payload-bytes", "history": h.Name, "ops": h.Ops, "image": im.Desc.String(), "at": im.NextOp + " " + im.NextPath,
+						"acknowledged": shortList(cx.Appended), "head": cx.Head, "in_flight": short(cx.Unacked), "last_8_bytes_of_tail_segment": tailWindowClass(im), "read_out_mode": mode, "read_out_after_recovery_and_one_append": shortList(o.Got1), "unacked_entry": unacked})
 				} else if !sampled && !h.LastOnly && (h.Name == "append-roll" || h.Name == "advance-trim") && c.WantSample() && cx.Infl == "append" && im.Desc.Kind == crashfs.KindT && len(cx.Appended) > 1 {
 					sampled = true
 					c.Sample(map[string]any{"family": "crash", "history": h.Name, "ops": h.Ops, "image": im.Desc.String(), "at": im.NextOp + " " + im.NextPath,
@@ -1812,7 +1896,28 @@ func runCrash(c *vlib.Ctx) {
 	defer os.RemoveAll(scratch)
 	var preps []*crashPrep
 	var items []crashItem
-	for hi, h := range crashHistories(c.Tier) {
+	itemOf := map[string]int{} // (content, geometry, read-out bound, mode) -> item
+	add := func(pr *crashPrep) {
+		h := pr.h
+		cfgKey, _ := json.Marshal(h.Cfg)
+		for _, im := range pr.uniq {
+			var idx []int
+			for _, mode := range crashModes {
+				key := fmt.Sprintf("%s|%s|%d|%s", im.Hash, cfgKey, len(h.Ops)+4, mode)
+				ii, ok := itemOf[key]
+				if !ok {
+					ii = len(items)
+					itemOf[key] = ii
+					items = append(items, crashItem{im, mode, h.Cfg, len(h.Ops) + 4})
+				}
+				idx = append(idx, ii)
+			}
+			pr.item = append(pr.item, idx)
+		}
+		preps = append(preps, pr)
+	}
+	hs := crashHistories(c.Tier)
+	for hi, h := range hs {
 		if !c.Mine(int64(hi)) {
 			continue
 		}
@@ -1824,16 +1929,78 @@ func runCrash(c *vlib.Ctx) {
 		if stop {
 			return
 		}
-		if pr == nil {
-			continue
+		if pr != nil {
+			add(pr)
 		}
-		pr.first = len(items)
-		for _, im := range pr.uniq {
-			for _, mode := range crashModes {
-				items = append(items, crashItem{im, mode, h.Cfg, len(h.Ops) + 4})
+	}
+	// payload-byte family: every worker owns ONE prefix (with more workers than prefixes the lengths of a prefix are dealt
+	// to its owners; with fewer, a worker owns several prefixes). ONE real recording per prefix and worker serves all its
+	// lengths and fill patterns (deriveByteLog); a second real recording of another (length, fill) cross-checks the
+	// derivation (quick: the last length of the prefix's first owner; thorough: every second length, the fill rotating)
+	prefixes, lens, fills := byteFamily(c.Tier)
+	for pi, p := range prefixes {
+		var owners []int
+		for w := 0; w < c.NShards; w++ {
+			if w%len(prefixes) == pi%c.NShards {
+				owners = append(owners, w)
 			}
 		}
-		preps = append(preps, pr)
+		var mine []int // my lengths of this prefix
+		for li, n := range lens {
+			if owners[li%len(owners)] == c.Shard {
+				mine = append(mine, n)
+			}
+		}
+		if len(mine) == 0 {
+			continue
+		}
+		if c.Expired() {
+			c.Cap("budget expired inside the crash family (recording, payload-byte family)")
+			break
+		}
+		baseN, baseFill := mine[0], fills[0]
+		base, stop := recordForRun(c, scratch, byteHistory(p, baseN, baseFill))
+		if stop {
+			return
+		}
+		if base == nil {
+			continue
+		}
+	lengths:
+		for k, n := range mine {
+			logs := map[string]*crashfs.Log{}
+			for _, f := range fills {
+				if n == baseN && f == baseFill {
+					logs[f] = base
+					continue
+				}
+				l, err := deriveByteLog(base, p, baseN, baseFill, n, f)
+				if err != nil {
+					c.HarnessError(fmt.Sprintf("crash family: payload-byte family %s/%d: %v", p.Name, n, err))
+					continue lengths
+				}
+				logs[f] = l
+			}
+			if ((c.Thorough() && k%2 == 1) || (k == len(mine)-1 && c.Shard == owners[0])) && !c.Expired() {
+				f := fills[1+(pi+k)%(len(fills)-1)]
+				real, stop := recordForRun(c, scratch, byteHistory(p, n, f))
+				if stop {
+					return
+				}
+				if real != nil {
+					if fullDigest(real) != fullDigest(logs[f]) {
+						c.HarnessError(fmt.Sprintf("crash family: payload-byte family %s/%d: the recording derived for fill %s differs from the real recording of that history", p.Name, n, f))
+						continue
+					}
+					c.Extra("crash_bytefamily_derived_logs_cross_checked", 1)
+				}
+			}
+			for _, f := range fills {
+				if pr := prepareCrashLog(c, byteHistory(p, n, f), logs[f]); pr != nil {
+					add(pr)
+				}
+			}
+		}
 	}
 	obs, notes, capped, err := recoverAll(scratch, items, c.Expired)
 	if err != nil {
@@ -1842,6 +2009,11 @@ func runCrash(c *vlib.Ctx) {
 	}
 	if capped {
 		c.Cap("budget expired inside the crash family (recovery)")
+	}
+	for _, o := range obs {
+		if o != nil {
+			c.Extra("crash_recoveries", 1) // one recovery subprocess run per distinct (image content, geometry, read-out mode) of this worker
+		}
 	}
 	for _, pr := range preps {
 		judgeCrashHistory(c, pr, obs, notes)
@@ -2541,8 +2713,8 @@ func TestCheck(t *testing.T) {
 		return
 	}
 	vlib.Main(t, &vlib.Check{
-		ID: "C26", Level: "model_checking", QuickBudgetS: 55, ThoroughBudgetS: 780, WorkerEnv: []string{"GOMAXPROCS=1"},
-		Rule: "every op sequence of length <= d (quick d=4; thorough d=5, plus every sequence of length exactly 6 over the 9-op alphabet without the two delivery-neutral ops purgeNone and growMax) over the 11-op alphabet {append 1 B, append 9 B, append segment-filling 40 B, Queue.Advance, scanner Next x1 + Advance, scanner Next-to-end + Advance, reopen (Close + fresh Queue + Open), PurgeOlderThan(nothing old), PurgeOlderThan(all segments aged), SetMaxSize(80 = smallest legal), SetMaxSize(1024)} with max segment size 40 (rollover after <= 3 small entries), each replayed from scratch on the real Queue in a fresh directory, times 4 complete read-outs {live|after reopen} x {Current+Advance | scanner}; oracle = FIFO list model: Current after every op is the model head (or an error when empty), scanner output is a non-empty prefix of the remaining list, the final read-out equals the remaining list exactly, a rejected Append never shows up, an accepted Append never leaves more not-advanced payload than the max size, an Append is not rejected while the segment files plus the entry (+16 bytes framing) fit the max size. State = (sequence, read-out) node of the exploration tree, transition = one executed op, trace = one sequence validated against the implementation. Non-trivial = sequences containing at least one accepted append (distinct by construction). CRASH FAMILY (additional clause, engine crashfs; counted under the crash_* coverage keys and the crash:* outcomes, not under states/transitions/traces): histories over {append 1 B, append 9 B, append 40 B, Queue.Advance, scanner Next x1 + Advance, scanner Next-to-end + Advance, reopen} performed by a writer subprocess on the real Queue (max segment size 40) under strace with BEGIN/ACK markers around the initial Open and every op; quick: 4 hand-picked histories of 5-8 ops (append into fresh/rolled segment, length word equal to a record boundary, segment roll, Advance footer writes, trim of a full single segment = addSegment + remove, scanner trim with a tail segment, reopen), every cut; thorough: 7 hand-picked histories (every cut) plus EVERY sequence of length 0..3 over the 6-op alphabet without scanner-x1 (259 recordings; of each only the cuts inside or after its last op, so every (history prefix, cut) is evaluated once). Per history every prefix of the syscall-level event list (P), every torn length 1..n-1 of the write in flight (T; all writes are <= 56 bytes, no subsampling), and for the segment files (sync class [0-9]*) the images with un-fsynced data dropped or its last write torn (U); directory operations in program order; images deduplicated by (content, acknowledged ops, op in flight). One evaluation = one (image, acknowledgement context, read-out mode in {Current+Advance, scanner}) recovered in a fresh subprocess: real Queue.Open on the image, one more Append (must be accepted), directory copied without closing (second process death), complete read-out, then Open of the copy, complete read-out, one more Append, read-out. Crash oracle: each complete read-out = Appended[k:] for some k <= model head (k <= head + n while an Advance/scanner-Advance over n entries is in flight), optionally followed by the entry of the Append in flight as a whole, followed by the entry appended after the recovery; nothing else; Open must succeed. Non-trivial crash case = first read-out holds at least one entry of the history. SCHEDULE PART (engine vsched; both tiers, after the crash family, limited to 25 s quick / 300 s thorough of wall time; its decision nodes / scheduling steps / executions are ADDED to states / transitions / traces and reported separately as sched_states / sched_transitions / sched_traces): pkg/durablequeue/queue.go (the only file of the package that imports sync; Queue.mu and segment.mu live there, scanner.go locks them through these types) is compiled against the modelled sync. Scenarios = 9 initial queue states built unscheduled on the real Queue (max segment size 40) {[9 B] one segment with room for one more entry, [9 B, 1 B] 34 bytes: any entry fills it, [9 B, advance] not full and fully consumed, [9 B, 9 B] one full segment, [9 B x3] full head + tail, [9 B, 9 B, advance] full single segment with the head inside, fresh, [40 B] one over-full segment, [9 B x3, scanner-to-end] head trimmed} x appender thread programs {9 B | 1 B | 9 B, 9 B | 40 B (thorough: + 1 B, 9 B)} x one other thread {scanner: NewScanner, Next until false, Advance | scanner: NewScanner, Next x1, Advance | Current + Queue.Advance | PurgeOlderThan(2001) with the initial segment files aged to 2000 | second appender 9 B (thorough: + second appender 1 B, 40 B)}; thorough additionally two appenders (9 B; 9 B | 1 B) against each of the 4 consumer/purge threads (<= 2 preemptions). All threads work on the SAME Queue; EVERY schedule with <= 2 preemptions (thorough <= 3) at the decision points = every Lock/RLock of Queue.mu and segment.mu plus the threads' call boundaries is executed (baton passing inside a synctest bubble; the atomics of SharedCount pass silently). When the threads have finished: Current, two copies of the directory (restart images), complete live read-out by scanner, Close, then fresh Queue.Open on the copies and complete read-outs by Current+Advance and by scanner. Oracle on the call/return history: let Q = entries of the initial history ++ the acknowledged appends in some order consistent with returned-before-called; no Append may fail; the consumer thread was handed Q[head], Q[head+1], ... in order and its Advance returned nil; Current and every complete read-out equal Q[head':] with head' = head + number of entries the consumer advanced past (a purge may instead drop any prefix of the initial entries, never an entry appended during the run); nothing else is delivered; a read-out that starts before head' is the class redelivery-without-crash; deadlock and step cap are violations. Non-trivial schedule = execution with >= 1 preemption.",
+		ID: "C26", Level: "model_checking", QuickBudgetS: 90, ThoroughBudgetS: 780, WorkerEnv: []string{"GOMAXPROCS=1"},
+		Rule: "every op sequence of length <= d (quick d=4; thorough d=5, plus every sequence of length exactly 6 over the 9-op alphabet without the two delivery-neutral ops purgeNone and growMax) over the 11-op alphabet {append 1 B, append 9 B, append segment-filling 40 B, Queue.Advance, scanner Next x1 + Advance, scanner Next-to-end + Advance, reopen (Close + fresh Queue + Open), PurgeOlderThan(nothing old), PurgeOlderThan(all segments aged), SetMaxSize(80 = smallest legal), SetMaxSize(1024)} with max segment size 40 (rollover after <= 3 small entries), each replayed from scratch on the real Queue in a fresh directory, times 4 complete read-outs {live|after reopen} x {Current+Advance | scanner}; oracle = FIFO list model: Current after every op is the model head (or an error when empty), scanner output is a non-empty prefix of the remaining list, the final read-out equals the remaining list exactly, a rejected Append never shows up, an accepted Append never leaves more not-advanced payload than the max size, an Append is not rejected while the segment files plus the entry (+16 bytes framing) fit the max size. State = (sequence, read-out) node of the exploration tree, transition = one executed op, trace = one sequence validated against the implementation. Non-trivial = sequences containing at least one accepted append (distinct by construction). CRASH FAMILY (additional clause, engine crashfs; counted under the crash_* coverage keys and the crash:* outcomes, not under states/transitions/traces): histories over {append 1 B, append 9 B, append 40 B, Queue.Advance, scanner Next x1 + Advance, scanner Next-to-end + Advance, reopen} performed by a writer subprocess on the real Queue (max segment size 40) under strace with BEGIN/ACK markers around the initial Open and every op; quick: 4 hand-picked histories of 5-8 ops (append into fresh/rolled segment, length word equal to a record boundary, segment roll, Advance footer writes, trim of a full single segment = addSegment + remove, scanner trim with a tail segment, reopen), every cut; thorough: 7 hand-picked histories (every cut) plus EVERY sequence of length 0..3 over the 6-op alphabet without scanner-x1 (259 recordings; of each only the cuts inside or after its last op, so every (history prefix, cut) is evaluated once). Per history every prefix of the syscall-level event list (P), every torn length 1..n-1 of the write in flight (T; all writes are <= 56 bytes, no subsampling), and for the segment files (sync class [0-9]*) the images with un-fsynced data dropped or its last write torn (U); directory operations in program order; images deduplicated by (content, acknowledged ops, op in flight). One evaluation = one (image, acknowledgement context, read-out mode in {Current+Advance, scanner}) recovered in a fresh subprocess: real Queue.Open on the image, one more Append (must be accepted), directory copied without closing (second process death), complete read-out, then Open of the copy, complete read-out, one more Append, read-out. Crash oracle: each complete read-out = Appended[k:] for some k <= model head (k <= head + n while an Advance/scanner-Advance over n entries is in flight), optionally followed by the entry of the Append in flight as a whole, followed by the entry appended after the recovery; nothing else; Open must succeed. PAYLOAD-BYTE FAMILY of the crash family (both tiers, coverage keys crash_bytefamily_*): histories (acknowledged prefix, appendB(len, fill)) whose last op appends a payload of len bytes filled with a byte pattern; of each only the cuts inside or after that append are evaluated, i.e. EVERY byte length 1..len+15 of the ONE write (length word | payload | footer) that overwrites the old footer, plus the prefix and unsynced images around it, so that the last 8 bytes of the tail segment file - what segment.open reads as the head position - run through every window of old footer, length word, payload and new footer bytes (counted per class: high bit set = negative as int64 / positive beyond the segment / inside the segment / file shorter than a footer). Quick: prefixes {fresh queue | 9 B | 1 B, 9 B | 9 B, Advance (footer position 17, nothing left) | 9 B, 9 B, Advance (footer position 17, one entry left)} in ONE segment (max segment size 160) and {9 B, 9 B} with max segment size 40 (the append creates segment 2 while the acknowledged entries are in segment 1) x len in {1, 8, 9, 16, 17, 40} x fill in {0x00, 0x01, the op position's lower-case letter, 0x7f, 0x80, 0xff, mixed ff 00 80 01 repeated} = 252 histories; thorough: 16 prefixes (additionally 1 B | 9 B, 9 B | 1 B, 1 B | 9 B, 1 B | 1 B, Advance | 1 B, 9 B, Advance | 9 B, reopen | 9 B, 9 B, scanner-to-end | 1 B, 9 B, 9 B | 9 B, Advance, 9 B) x len in {1, 2, 8, 9, 16, 17, 24, 26, 34, 40} (26 and 34 are record boundaries of the prefixes) x 10 fills (additionally 80 81 82 ..., 80 00 00 00 00 00 00 00 repeated, first half ff + second half 00) = 1600 histories. Same recovery procedure and crash oracle as above. Class signatures: a violation whose append is torn BEHIND its length word while the last 8 bytes on disk decode to a position inside the segment carries the feature torn-tail=payload-reads-as-head-position (one class per clause); torn exactly after the length word (length = record boundary) keeps the plain signature. Non-trivial crash case = first read-out holds at least one entry of the history, or (payload-byte family) the append in flight is torn behind its length word. SCHEDULE PART (engine vsched; both tiers, after the crash family, limited to 25 s quick / 300 s thorough of wall time; its decision nodes / scheduling steps / executions are ADDED to states / transitions / traces and reported separately as sched_states / sched_transitions / sched_traces): pkg/durablequeue/queue.go (the only file of the package that imports sync; Queue.mu and segment.mu live there, scanner.go locks them through these types) is compiled against the modelled sync. Scenarios = 9 initial queue states built unscheduled on the real Queue (max segment size 40) {[9 B] one segment with room for one more entry, [9 B, 1 B] 34 bytes: any entry fills it, [9 B, advance] not full and fully consumed, [9 B, 9 B] one full segment, [9 B x3] full head + tail, [9 B, 9 B, advance] full single segment with the head inside, fresh, [40 B] one over-full segment, [9 B x3, scanner-to-end] head trimmed} x appender thread programs {9 B | 1 B | 9 B, 9 B | 40 B (thorough: + 1 B, 9 B)} x one other thread {scanner: NewScanner, Next until false, Advance | scanner: NewScanner, Next x1, Advance | Current + Queue.Advance | PurgeOlderThan(2001) with the initial segment files aged to 2000 | second appender 9 B (thorough: + second appender 1 B, 40 B)}; thorough additionally two appenders (9 B; 9 B | 1 B) against each of the 4 consumer/purge threads (<= 2 preemptions). All threads work on the SAME Queue; EVERY schedule with <= 2 preemptions (thorough <= 3) at the decision points = every Lock/RLock of Queue.mu and segment.mu plus the threads' call boundaries is executed (baton passing inside a synctest bubble; the atomics of SharedCount pass silently). When the threads have finished: Current, two copies of the directory (restart images), complete live read-out by scanner, Close, then fresh Queue.Open on the copies and complete read-outs by Current+Advance and by scanner. Oracle on the call/return history: let Q = entries of the initial history ++ the acknowledged appends in some order consistent with returned-before-called; no Append may fail; the consumer thread was handed Q[head], Q[head+1], ... in order and its Advance returned nil; Current and every complete read-out equal Q[head':] with head' = head + number of entries the consumer advanced past (a purge may instead drop any prefix of the initial entries, never an entry appended during the run); nothing else is delivered; a read-out that starts before head' is the class redelivery-without-crash; deadlock and step cap are violations. Non-trivial schedule = execution with >= 1 preemption.",
 		Assumptions: []string{
 			"entries are non-empty (the scanner skips zero-length records by design)",
 			"Queue.Advance / scanner on a queue that is empty by the model is executed, but only its effect on later deliveries is judged (the statement does not define it)",
@@ -2551,6 +2723,8 @@ func TestCheck(t *testing.T) {
 			"PurgeOlderThan may drop any prefix of the remaining list when all segments are older than the cutoff, and nothing when none is",
 			"crash family: ordered-metadata crash model (creates/unlinks persist in program order; data of segment files may be lost back to the last fsync = U images; a write in flight may persist any byte prefix = T images, byte-granular); event order is syscall completion order of the single writer goroutine",
 			"crash family: a lost acknowledged Advance (redelivery from an earlier position) is allowed by the statement (at-least-once), so a missing fsync in advanceTo is by design not a violation; footer positions stay below 256 (one significant byte) in all histories",
+			"crash family, payload-byte family: Queue.Append / segment.append issue the same syscalls whatever the payload bytes and (up to 64 bytes) the payload length - only the bytes of the one write differ - and whether the segment rolls depends on the size of the tail segment only; so ONE real strace recording per prefix and worker is made and the recordings of the other (length, fill) are derived from it by replacing the length word and the payload inside the recorded write and the op name in the BEGIN marker (offset, footer bytes, every other event as recorded). The derivation is cross-checked against a second real recording (quick: one (length, fill) per prefix; thorough: one fill for every second length of every prefix; coverage key crash_bytefamily_derived_logs_cross_checked, a mismatch is a harness error), and every violation is confirmed on a real recording of its own history (Replay records the history itself and compares the digest of the event prefix, payload bytes included)",
+			"crash family, payload-byte family: the block verification function accepts exactly the well-formed entries of the alphabet (a fill pattern of 1..64 bytes), as it accepts exactly the letter runs in the other families (the replication service passes a function that accepts everything); acknowledged entries are letter runs and the entry in flight is the fill pattern with the letter of its own op position, so the entries of a history are pairwise distinct",
 			"crash family: a Queue.Open that fails on a crash image is reported also when no acknowledged, not-advanced entry exists (signature feature undelivered-entries=none): the queue then cannot accept the further append the oracle requires",
 			"schedule part: sequentially consistent interleavings at the granularity of the Lock/RLock operations of Queue.mu and segment.mu (file I/O between two lock operations runs atomically); at most one consuming thread (scanner or Current+Advance) and never a purge concurrent with a scanner, as in replications/internal/queue_management.go where one goroutine scans and purges while other goroutines append; no process death in this part, so read-outs are judged exactly (no redelivery), like clean histories of the sequential family",
 			"which appends the size limit must reject is judged only by payload bytes (accepted => not-advanced payload <= max size), and which it must accept only by the bytes the segment files really occupy (files + entry + 16 <= max size => accepted); the exact accounting of headers/footers in between is not part of the statement",
